@@ -72,9 +72,9 @@ def run(ck: Check):
             return src
 
         def job(name, code=0, out=b"", nout=1, err=b"", nerr=1, sleep=0.0, sig=None, limit=20,
-                use_files=False):
+                use_files=False, env=None):
             jobs.append(dict(name=name, code=code, out=out, nout=nout, err=err, nerr=nerr, sleep=sleep,
-                             sig=sig, limit=limit, use_files=use_files))
+                             sig=sig, limit=limit, use_files=use_files, env=env))
 
         for mode in (False, True):
             for c in range(256):
@@ -96,6 +96,11 @@ def run(ck: Check):
                 # finishes well before the limit (1 s of slack for interpreter start-up under load)
                 job(f"sleep-{lim}-{nap}", sleep=nap, limit=lim, out=b"early\n", code=6, use_files=mode)
             job("int-timeout", sleep=3, limit=1, out=b"x", use_files=mode)
+            # the classification does not depend on the caller's environment (sanitizer options already set there)
+            for opts in ("exitcode=23", "detect_leaks=0:exitcode=1", "abort_on_error=1"):
+                for c in (0, 1, 23, 77, 78):
+                    job(f"env-{opts}-exit{c}", code=c, out=b"o\n", use_files=mode,
+                        env={"ASAN_OPTIONS": opts, "UBSAN_OPTIONS": opts, "LSAN_OPTIONS": opts})
 
         def do(j):
             idx = jobs.index(j)
@@ -103,8 +108,9 @@ def run(ck: Check):
             src = child(j["code"], sleep=j["sleep"], sig=j["sig"])
             t0 = time.time()
             try:
+                env = None if j["env"] is None else dict(os.environ, **j["env"])
                 rd = timed_run([PY, "-c", src, j["out"].hex(), str(j["nout"]), j["err"].hex(), str(j["nerr"])],
-                               j["limit"], prefix)
+                               j["limit"], prefix, env=env)
             except BaseException as exc:  # pylint: disable=broad-except
                 return j, exc, b"", b"", False, 0.0
             el = time.time() - t0
